@@ -9,7 +9,7 @@
 //! untagged enums, flatten, skipped fields, renames, zero-field variants, enum map keys, arrays,
 //! `Result`). For every type the values are enumerated with `agv_engine::explore`: the exemplar
 //! (every container populated, every leaf at the first entry of its boundary menu) and every way
-//! of changing at most k positions of it (k = 2 quick, 3 thorough; class Dev(0)).
+//! of changing at most k positions of it (k = 3 quick, 5 thorough; class Dev(0)).
 //!
 //! Oracle: `from_value::<T>(to_value(&x)?)? == x`, equality taken on the `Debug` rendering so that
 //! floats are compared exactly (−0.0 ≠ 0.0, NaN = NaN).
@@ -552,79 +552,80 @@ fn trip<T: Gen>(x: &T) -> Obs {
     }
 }
 
+/// every (class, leaf, feature) seen, with case counts — goes into the evidence
+static BREAKDOWN: std::sync::Mutex<BTreeMap<String, u64>> = std::sync::Mutex::new(BTreeMap::new());
+
 struct TypeStats {
     executions: u64,
     nontrivial: u64,
     capped: bool,
 }
 
-fn run_type<T: Gen>(cx: &Cx, budget: u32) -> TypeStats {
-    let name = T::name();
-    let leaf = T::leaf();
+/// Generate the value selected by the chooser, convert it there and back.
+fn gen_trip<T: Gen>(ch: &mut Chooser) -> (String, Feats, Obs) {
+    let mut f = Feats::default();
+    let x = T::gen(ch, "", &mut f);
+    (format!("{x:?}"), f, trip(&x))
+}
+
+struct Entry {
+    name: String,
+    leaf: &'static str,
+    depth: u8,
+    thorough_only: bool,
+    gen_trip: fn(&mut Chooser) -> (String, Feats, Obs),
+}
+
+fn entry<T: Gen>(depth: u8, thorough_only: bool) -> Entry {
+    Entry { name: T::name(), leaf: T::leaf(), depth, thorough_only, gen_trip: gen_trip::<T> }
+}
+
+fn run_entry(cx: &Cx, e: &Entry, budget: u32) -> TypeStats {
+    let name = &e.name;
+    let leaf = e.leaf;
     let nontrivial = AtomicU64::new(0);
     let cfg = ExploreCfg { bounds: [budget, 0, 0, 0], max_execs: 2_000_000, parallel: true };
-    let st = explore(
-        &cfg,
-        &|ch: &mut Chooser| {
-            let mut f = Feats::default();
-            let x = T::gen(ch, "", &mut f);
-            (format!("{x:?}"), f, trip(&x))
-        },
-        &|ch: &Chooser, (shown, f, obs): (String, Feats, Obs)| {
-            let case = || json!({"type": name, "choices": ch.choices(), "value": shown});
-            let v = |class: &str, detail: String| {
-                cx.violation(Violation::new(class, detail, case()).key("leaf", leaf).key("feature", f.text()).key("type", name.clone()));
-            };
-            match obs {
-                Obs::ToPanic(p) => v("panic", format!("to_value({shown}) of type {name} panicked: {p}")),
-                Obs::FromPanic { value, msg } => v("panic", format!("from_value::<{name}>({value}) panicked: {msg}")),
-                Obs::ToErr(e) => v("to-value-fails", format!("to_value({shown}) of type {name} fails: {e}")),
-                Obs::FromErr { value, msg } => v("from-value-fails", format!("{name}: {shown} converts to {value}, which from_value rejects: {msg}")),
-                Obs::Back { value, back, null } => {
-                    if back != shown {
-                        v("roundtrip-differs", format!("{name}: {shown} converts to {value} and comes back as {back}"));
-                    } else {
-                        if !null {
-                            nontrivial.fetch_add(1, Ordering::Relaxed);
-                        }
-                        let h = agv_engine::h64(&(&name, &shown));
-                        cx.sample_with(h, || json!({"type": name, "value": shown, "graphql": value}));
+    let st = explore(&cfg, &|ch: &mut Chooser| (e.gen_trip)(ch), &|ch: &Chooser, (shown, f, obs): (String, Feats, Obs)| {
+        let case = || json!({"type": name, "choices": ch.choices(), "value": shown});
+        let v = |class: &str, detail: String| {
+            *BREAKDOWN.lock().unwrap().entry(format!("{class} leaf={leaf} feature={}", f.text())).or_insert(0) += 1;
+            cx.violation(Violation::new(class, detail, case()).key("leaf", leaf).key("feature", f.text()).key("type", name.clone()));
+        };
+        match obs {
+            Obs::ToPanic(p) => v("panic", format!("to_value({shown}) of type {name} panicked: {p}")),
+            Obs::FromPanic { value, msg } => v("panic", format!("from_value::<{name}>({value}) panicked: {msg}")),
+            Obs::ToErr(e) => v("to-value-fails", format!("to_value({shown}) of type {name} fails: {e}")),
+            Obs::FromErr { value, msg } => v("from-value-fails", format!("{name}: {shown} converts to {value}, which from_value rejects: {msg}")),
+            Obs::Back { value, back, null } => {
+                if back != shown {
+                    v("roundtrip-differs", format!("{name}: {shown} converts to {value} and comes back as {back}"));
+                } else {
+                    if !null {
+                        nontrivial.fetch_add(1, Ordering::Relaxed);
                     }
+                    let h = agv_engine::h64(&(name, &shown));
+                    cx.sample_with(h, || json!({"type": name, "value": shown, "graphql": value}));
                 }
             }
-        },
-    );
+        }
+    });
     if let Some(d) = &st.diverged {
         cx.machinery_error(format!("{name}: {d}"));
     }
     TypeStats { executions: st.executions, nontrivial: nontrivial.load(Ordering::Relaxed), capped: st.capped }
 }
 
-fn replay_type<T: Gen>(choices: &[u32]) -> String {
+fn replay_entry(e: &Entry, choices: &[u32]) -> String {
     let mut ch = Chooser::from_choices(choices);
-    let mut f = Feats::default();
-    let x = T::gen(&mut ch, "", &mut f);
-    let shown = format!("{x:?}");
-    let head = format!("type {} value {shown} (features {})\n  ", T::name(), f.text());
-    head + &match trip(&x) {
+    let (shown, f, obs) = (e.gen_trip)(&mut ch);
+    let head = format!("type {} value {shown} (features {})\n  ", e.name, f.text());
+    head + &match obs {
         Obs::ToPanic(p) => format!("to_value panicked: {p}"),
         Obs::ToErr(e) => format!("to_value fails: {e}"),
         Obs::FromPanic { value, msg } => format!("to_value = {value}; from_value panicked: {msg}"),
         Obs::FromErr { value, msg } => format!("to_value = {value}; from_value fails: {msg}"),
         Obs::Back { value, back, .. } => format!("to_value = {value}; from_value = {back}; {}", if back == shown { "equal: property holds on this case" } else { "NOT equal" }),
     }
-}
-
-struct Entry {
-    name: String,
-    depth: u8,
-    thorough_only: bool,
-    run: fn(&Cx, u32) -> TypeStats,
-    replay: fn(&[u32]) -> String,
-}
-
-fn entry<T: Gen>(depth: u8, thorough_only: bool) -> Entry {
-    Entry { name: T::name(), depth, thorough_only, run: run_type::<T>, replay: replay_type::<T> }
 }
 
 macro_rules! ctor_each {
@@ -656,15 +657,33 @@ macro_rules! d3 {
         ctor_each!(d2, $reg, $d, $th, $t);
     };
 }
-/// all 512 types `C<C<C<t>>>`
-macro_rules! d4 {
-    ($reg:ident, $d:expr, $th:expr, $t:ty) => {
-        ctor_each!(d3, $reg, $d, $th, $t);
-    };
-}
-
 macro_rules! each_leaf {
     ($m:ident, $reg:ident, $d:expr, $th:expr, [$($t:ty),*]) => { $( $m!($reg, $d, $th, $t); )* };
+}
+
+/// the sub-family used at depth 4
+macro_rules! ctor4_each {
+    ($m:ident, $reg:ident, $d:expr, $th:expr, $t:ty) => {
+        $m!($reg, $d, $th, Opt<$t>);
+        $m!($reg, $d, $th, Map<$t>);
+        $m!($reg, $d, $th, En<$t>);
+    };
+}
+macro_rules! e2 {
+    ($reg:ident, $d:expr, $th:expr, $t:ty) => {
+        ctor4_each!(d1, $reg, $d, $th, $t);
+    };
+}
+macro_rules! e3 {
+    ($reg:ident, $d:expr, $th:expr, $t:ty) => {
+        ctor4_each!(e2, $reg, $d, $th, $t);
+    };
+}
+/// all 27 types `C<C<C<t>>>` with C in {Option, Map, En}
+macro_rules! e4 {
+    ($reg:ident, $d:expr, $th:expr, $t:ty) => {
+        ctor4_each!(e3, $reg, $d, $th, $t);
+    };
 }
 
 fn registry() -> Vec<Entry> {
@@ -672,27 +691,24 @@ fn registry() -> Vec<Entry> {
     // depth 1: the leaves; depth 2: every constructor over every leaf
     each_leaf!(d1, r, 1, false, [bool, i8, i16, i32, i64, i128, u8, u16, u32, u64, u128, f32, f64, char, String, Bytes, (), Unit, Ue]);
     each_leaf!(d2, r, 2, false, [bool, i8, i16, i32, i64, i128, u8, u16, u32, u64, u128, f32, f64, char, String, Bytes, (), Unit, Ue]);
-    // depth 3: every pair of constructors; quick over four leaves that behave differently
-    // (small int, string, null-valued unit, float), thorough over six more
-    each_leaf!(d3, r, 3, false, [u8, String, (), f64]);
-    each_leaf!(d3, r, 3, true, [i64, u64, bool, Bytes, Ue, Unit]);
-    // depth 4: every triple of constructors over one leaf (thorough)
-    each_leaf!(d4, r, 4, true, [u8]);
+    // depth 3: every pair of constructors over u8 (thorough: also over the null-valued unit)
+    each_leaf!(d3, r, 3, false, [u8]);
+    // depth 4 (thorough): every triple over {Option, Map, En}
+    each_leaf!(e4, r, 4, true, [u8]);
     // extras
     each_leaf!(d1, r, 0, false, [ITag, ATag, UTag, Flat, Skip, ZeroV, ZeroS, EnumKeyMap, Mixed]);
-    each_leaf!(d2, r, 0, false, [ITag, ATag, UTag, ZeroV]);
     r
 }
 
 pub fn run(cx: &Cx) {
     let thorough = !cx.quick();
-    let budget: u32 = if thorough { 3 } else { 2 };
+    let budget: u32 = if thorough { 5 } else { 3 };
     cx.rule(
         "case = (concrete Rust type, value). Types: 19 leaves (bool, i8–i128, u8–u128, f32, f64, char, String, bytes, (), unit struct, unit-only enum) under every \
          composition of {Option, Vec, 2-tuple, BTreeMap<String,_>, newtype struct, tuple struct, named struct, enum with newtype/unit/tuple/struct variants}: all 8 \
-         over every leaf, all 64 pairs over 4 leaves (thorough: 10), thorough all 512 triples over u8; plus 13 extras (internally/adjacently tagged and untagged enums, \
+         over every leaf, all 64 pairs over u8, thorough all 27 triples of {Option, Map, enum} over u8; plus 9 extras (internally/adjacently tagged and untagged enums, \
          flatten, rename/skip/default, zero-field variants and structs, unit-variant map keys, arrays/Result/Box). Values: the populated exemplar and every change of \
-         ≤ k positions (k=2 quick, 3 thorough) among: leaf boundary menus (min, max, 0, ±1, 2^53+1, −0.0, denormals, NaN, ±inf, NUL/quote/non-BMP strings), \
+         ≤ k positions (k=3 quick, 5 thorough) among: leaf boundary menus (min, max, 0, ±1, 2^53+1, −0.0, denormals, NaN, ±inf, NUL/quote/non-BMP strings), \
          None, lengths 0/2, map key sets (incl. empty and non-identifier keys), every variant. Non-trivial = the value converted to a non-null GraphQL value and came \
          back equal; distinct by construction (each admissible choice sequence runs once).",
     );
@@ -700,7 +716,7 @@ pub fn run(cx: &Cx) {
 
     let reg = registry();
     let selected: Vec<&Entry> = reg.iter().filter(|e| thorough || !e.thorough_only).collect();
-    let per: Vec<(u8, TypeStats)> = selected.par_iter().map(|e| (e.depth, (e.run)(cx, budget))).collect();
+    let per: Vec<(u8, TypeStats)> = selected.par_iter().map(|e| (e.depth, run_entry(cx, e, budget))).collect();
     let mut by_depth: BTreeMap<u8, (u64, u64)> = BTreeMap::new();
     let mut capped = false;
     for (d, s) in &per {
@@ -719,6 +735,7 @@ pub fn run(cx: &Cx) {
         json!(by_depth.iter().map(|(d, (n, e))| json!({"depth": if *d == 0 { "extras".to_string() } else { d.to_string() }, "types": n, "executions": e})).collect::<Vec<_>>()),
     );
     cx.extra("capped", json!(capped));
+    cx.extra("discrepancies_by_class_leaf_feature", json!(BREAKDOWN.lock().unwrap().clone()));
     cx.exhaustive(!capped);
 }
 
@@ -726,7 +743,7 @@ pub fn replay(case: &serde_json::Value) -> String {
     let ty = case["type"].as_str().unwrap_or("");
     let choices: Vec<u32> = case["choices"].as_array().map(|a| a.iter().filter_map(|x| x.as_u64().map(|x| x as u32)).collect()).unwrap_or_default();
     match registry().into_iter().find(|e| e.name == ty) {
-        Some(e) => (e.replay)(&choices),
+        Some(e) => replay_entry(&e, &choices),
         None => format!("no type named {ty} in the registry"),
     }
 }
